@@ -24,6 +24,10 @@ Definition ekey_eq_dec : forall a b : ekey, {a = b} + {a <> b}.
 Proof. decide equality; try apply str_eq_dec; apply bool_dec. Defined.
 Definition entity_key_eq_dec : forall a b : entity_key, {a = b} + {a <> b}.
 Proof. decide equality; [apply ostr_eq_dec | decide equality; apply ekey_eq_dec]. Defined.
+Definition ts_rules_eq_dec : forall a b : ts_rules, {a = b} + {a <> b}.
+Proof. decide equality; try apply obool_eq_dec; apply oZ_eq_dec. Defined.
+Definition obj_rules_eq_dec : forall a b : obj_rules, {a = b} + {a <> b}.
+Proof. decide equality; apply oN_eq_dec. Defined.
 Definition olpay_eq_dec : forall a b : option lpay, {a = b} + {a <> b}.
 Proof. decide equality; apply lpay_eq_dec. Defined.
 Definition fty_eq_dec : forall a b : fty, {a = b} + {a <> b}.
@@ -32,7 +36,8 @@ Proof.
     try apply ostr_eq_dec; try (apply list_eq_dec; apply str_eq_dec);
     try (decide equality; first [apply int_rules_eq_dec | apply str_rules_eq_dec | apply len_rules_eq_dec
                                 | apply enum_rules_eq_dec | apply kfmt_eq_dec | apply entity_key_eq_dec
-                                | apply txt_rules_eq_dec | apply obool_eq_dec]).
+                                | apply txt_rules_eq_dec | apply obool_eq_dec
+                                | apply ts_rules_eq_dec | apply obj_rules_eq_dec]).
 Defined.
 Definition map_rules_eq_dec : forall a b : map_rules, {a = b} + {a <> b}.
 Proof. decide equality; apply oN_eq_dec. Defined.
